@@ -451,3 +451,25 @@ Example C16_bringup_end_to_end :
   c_q (e_ch (s_a s)) = [] /\ c_q (e_ch (s_b s)) = [] /\ e_dead (s_a s) = 0%nat /\ e_dead (s_b s) = 0%nat.
 Proof. exact bringup_example. Qed.
 Print Assumptions C16_bringup_end_to_end.
+
+(* ONE WRITE = ONE ATTEMPT.  [att_incs q q'] lists, in queue order, the entries whose attempts went up by exactly one and
+   is defined only if nothing else about the entries' identity or attempts changed.  driveSend (from Send and from the
+   ACK path, with any write fault): the writes it attempts — the successful ones and the failing one — are exactly the
+   entries it marks 0 -> 1.  Tick (not declaring dead): the retransmissions it writes are exactly the entries whose attempts
+   it increments.  No other operation writes a sequenced message or touches attempts, so a queued message's attempts is the
+   number of times it has been passed to the send callback, and with C16_window (attempts <= MaxRetries) a message is
+   written at most MaxRetries times. *)
+Theorem C16_drive_writes_are_attempts :
+  forall cwnd nr dl q infl fj q' o e,
+  (forall p, In p q -> 0 <= p_att p) ->
+  drive_q cwnd nr dl infl fj q = (q', o, e) ->
+  att_incs q q' = Some (map pkey (o ++ opt_list e)).
+Proof. exact drive_q_writes. Qed.
+Print Assumptions C16_drive_writes_are_attempts.
+
+Theorem C16_tick_writes_are_attempts :
+  forall f now nr q cwnd ssth q' cw ss o,
+  tick_q f now nr cwnd ssth q = (Some q', cw, ss, o) ->
+  att_incs q q' = Some (map pkey o).
+Proof. exact tick_q_writes. Qed.
+Print Assumptions C16_tick_writes_are_attempts.
